@@ -14,6 +14,7 @@ import (
 func (m *Model) Step(cmd []string, rep resp.Value) (err error, known bool) {
 	m.Touched = m.Touched[:0]
 	m.Soft = false
+	m.SoftCheck = nil
 	if len(cmd) == 0 {
 		return nil, false
 	}
